@@ -225,4 +225,469 @@ theorem render_parse (ns : List Str) (t : Str) : render idEsc (parse ns t) = t :
     simp only [render, List.flatMap_cons, Item.render] at ih ⊢
     simp [ih]
 
+/-! ### One sequential replace = filling one name -/
+
+/-- Fill the references to one name. -/
+def fill1 (m w : Str) : Item → Item
+  | .ref n => if n = m then .txt w else .ref n
+  | i => i
+
+/-- `@m` occurs in the rendering only where a `ref m` item stands: at a reference to another name and at a
+stray `@`, the text that follows does not read as `m`. -/
+def Sep (esc : Char → Str) (m : Str) : List Item → Prop
+  | [] => True
+  | .ref n :: post => (n ≠ m → ¬ m <+: n ++ render esc post) ∧ Sep esc m post
+  | .stray :: post => ¬ m <+: render esc post ∧ Sep esc m post
+  | _ :: post => Sep esc m post
+
+/-- `@` occurs in the rendering only at stray `@`s and at the head of references. -/
+structure Clean (esc : Char → Str) (is : List Item) : Prop where
+  lit : ∀ c, Item.lit c ∈ is → '@' ∉ esc c
+  txt : ∀ s, Item.txt s ∈ is → '@' ∉ s
+  ref : ∀ n, Item.ref n ∈ is → '@' ∉ n
+
+theorem Clean.tail {esc : Char → Str} {i : Item} {is : List Item} (h : Clean esc (i :: is)) : Clean esc is :=
+  ⟨fun c hc => h.lit c (List.mem_cons_of_mem _ hc), fun s hs => h.txt s (List.mem_cons_of_mem _ hs),
+   fun n hn => h.ref n (List.mem_cons_of_mem _ hn)⟩
+
+theorem render_cons (esc : Char → Str) (i : Item) (is : List Item) :
+    render esc (i :: is) = i.render esc ++ render esc is := by
+  simp [render]
+
+theorem render_nil (esc : Char → Str) : render esc [] = [] := rfl
+
+theorem replace_render (esc : Char → Str) (m w : Str) (is : List Item)
+    (hclean : Clean esc is) (hsep : Sep esc m is) :
+    replaceAll1 '@' m w (render esc is) = render esc (is.map (fill1 m w)) := by
+  induction is with
+  | nil => simp [render_nil, replaceAll1_nil]
+  | cons i is ih =>
+    have ih' := ih hclean.tail
+    cases i with
+    | lit c =>
+      simp only [Sep] at hsep
+      rw [render_cons, List.map_cons, render_cons]
+      simp only [Item.render, fill1]
+      rw [replaceAll1_skip _ _ _ _ _ (hclean.lit c (by simp)), ih' hsep]
+    | txt s =>
+      simp only [Sep] at hsep
+      rw [render_cons, List.map_cons, render_cons]
+      simp only [Item.render, fill1]
+      rw [replaceAll1_skip _ _ _ _ _ (hclean.txt s (by simp)), ih' hsep]
+    | stray =>
+      simp only [Sep] at hsep
+      rw [render_cons, List.map_cons, render_cons]
+      simp only [Item.render, fill1, List.cons_append, List.nil_append]
+      rw [replaceAll1_miss _ _ _ _ _ (by simp [hsep.1]), ih' hsep.2]
+    | ref n =>
+      simp only [Sep] at hsep
+      rw [render_cons, List.map_cons, render_cons]
+      by_cases hn : n = m
+      · subst hn
+        simp only [Item.render, fill1, if_true, List.cons_append]
+        rw [replaceAll1_hit, ih' hsep.2]
+      · simp only [Item.render, fill1, if_neg hn, List.cons_append]
+        rw [replaceAll1_miss _ _ _ _ _ (by simp [hsep.1 hn]),
+          replaceAll1_skip _ _ _ _ _ (hclean.ref n (by simp)), ih' hsep.2]
+
+/-! ### The fold over a length-sorted variable list -/
+
+/-- Names in descending byte length. -/
+def Sorted {β : Type} (vs : List (Str × β)) : Prop := vs.Pairwise fun a b => blen b.1 ≤ blen a.1
+
+/-- Prop form of `noJoinItems`. -/
+def NoJoinP (esc : Char → Str) (vs : List (Str × Str)) : List Item → Prop
+  | [] => True
+  | .ref n :: post =>
+    (∀ m ∈ names vs, n <+: m → n ≠ m → ¬ m <+: n ++ render esc (post.map (fill vs))) ∧ NoJoinP esc vs post
+  | .stray :: post => (∀ m ∈ names vs, ¬ m <+: render esc (post.map (fill vs))) ∧ NoJoinP esc vs post
+  | _ :: post => NoJoinP esc vs post
+
+theorem noJoinItems_iff (esc : Char → Str) (vs : List (Str × Str)) (is : List Item) :
+    noJoinItems esc vs is = true ↔ NoJoinP esc vs is := by
+  induction is with
+  | nil => simp [noJoinItems, NoJoinP]
+  | cons i is ih =>
+    cases i with
+    | lit c => simp [noJoinItems, NoJoinP, ih]
+    | txt s => simp [noJoinItems, NoJoinP, ih]
+    | stray =>
+      simp only [noJoinItems, NoJoinP, Bool.and_eq_true, List.all_eq_true, Bool.not_eq_true', ih,
+        pre_false_iff]
+    | ref n =>
+      simp only [noJoinItems, NoJoinP, Bool.and_eq_true, List.all_eq_true, Bool.not_eq_true',
+        Bool.and_eq_false_iff, ih, properExt]
+      constructor
+      · rintro ⟨h, h2⟩
+        refine ⟨?_, h2⟩
+        intro m hm hnm hne
+        rcases h m hm with h1 | h1
+        · rcases h1 with h1 | h1
+          · exact absurd hnm (pre_false_iff.mp h1)
+          · simp at h1; exact absurd h1 hne
+        · exact pre_false_iff.mp h1
+      · rintro ⟨h, h2⟩
+        refine ⟨?_, h2⟩
+        intro m hm
+        by_cases hnm : n <+: m
+        · by_cases hne : n = m
+          · left; right; simp [hne]
+          · right; exact pre_false_iff.mpr (h m hm hnm hne)
+        · left; left; exact pre_false_iff.mpr hnm
+
+theorem fill_cons (m w : Str) (rest : List (Str × Str)) (i : Item) :
+    fill ((m, w) :: rest) i = fill rest (fill1 m w i) := by
+  cases i with
+  | ref n =>
+    by_cases h : n = m
+    · subst h; simp [fill, fill1, List.lookup]
+    · have : (n == m) = false := by simpa using h
+      simp [fill, fill1, List.lookup, this, h]
+  | _ => simp [fill, fill1]
+
+theorem map_fill_cons (m w : Str) (rest : List (Str × Str)) (is : List Item) :
+    is.map (fill ((m, w) :: rest)) = (is.map (fill1 m w)).map (fill rest) := by
+  simp [List.map_map, Function.comp_def, fill_cons]
+
+theorem fill_nil (i : Item) : fill [] i = i := by
+  cases i <;> simp [fill, List.lookup]
+
+/-- A prefix without `@` of a rendering survives the filling of references (it lies before the first `@`). -/
+theorem prefix_map_of_noAt (esc : Char → Str) (f : Item → Item)
+    (hf : ∀ i, (∀ n, i ≠ .ref n) → f i = i) (is : List Item) (s : Str) (hs : '@' ∉ s)
+    (h : s <+: render esc is) : s <+: render esc (is.map f) := by
+  induction is generalizing s with
+  | nil => simpa [render_nil] using h
+  | cons i is ih =>
+    rw [render_cons] at h
+    rw [List.map_cons, render_cons]
+    have key : ∀ x : Str, s <+: x ++ render esc is → s <+: x ++ render esc (is.map f) := by
+      intro x hx
+      rcases List.prefix_or_prefix_of_prefix hx (List.prefix_append x (render esc is)) with h1 | h1
+      · exact h1.trans (List.prefix_append _ _)
+      · obtain ⟨s', rfl⟩ := h1
+        have hs' : '@' ∉ s' := fun e => hs (by simp [e])
+        have := ih s' hs' ((List.prefix_append_right_inj x).mp hx)
+        exact (List.prefix_append_right_inj x).mpr this
+    have atHead : ∀ r r' : Str, s <+: '@' :: r → s <+: r' := by
+      intro r r' hx
+      cases s with
+      | nil => exact List.nil_prefix
+      | cons c cs =>
+        have : c = '@' := by
+          obtain ⟨t, ht⟩ := hx
+          simp at ht; exact ht.1
+        exact absurd (by simp [this]) hs
+    cases i with
+    | lit c => rw [hf (.lit c) (by simp)]; exact key _ h
+    | txt x => rw [hf (.txt x) (by simp)]; exact key _ h
+    | stray =>
+      rw [hf .stray (by simp)]
+      exact atHead _ _ (by simpa [Item.render] using h)
+    | ref n => exact atHead _ _ (by simpa [Item.render] using h)
+
+theorem fill_fixes (vs : List (Str × Str)) (i : Item) (h : ∀ n, i ≠ .ref n) : fill vs i = i := by
+  cases i with
+  | ref n => exact absurd rfl (h n)
+  | _ => simp [fill]
+
+/-- From the static no-join condition and the sort: when the head of the list is processed, `@head` occurs only
+at the references to it. -/
+theorem sep_of_noJoin (esc : Char → Str) (m w : Str) (rest : List (Str × Str)) (is : List Item)
+    (hsorted : Sorted ((m, w) :: rest)) (hm : '@' ∉ m)
+    (hrefs : ∀ n, Item.ref n ∈ is → n ∈ names ((m, w) :: rest))
+    (hnj : NoJoinP esc ((m, w) :: rest) is) : Sep esc m is := by
+  have hmem : m ∈ names ((m, w) :: rest) := by simp [names]
+  have hlen : ∀ n ∈ names ((m, w) :: rest), blen n ≤ blen m := by
+    intro n hn
+    simp only [names, List.map_cons, List.mem_cons, List.mem_map] at hn
+    rcases hn with rfl | ⟨p, hp, rfl⟩
+    · exact Nat.le_refl _
+    · exact (List.pairwise_cons.mp hsorted).1 p hp
+  induction is with
+  | nil => simp [Sep]
+  | cons i is ih =>
+    have ih' := ih (fun n hn => hrefs n (List.mem_cons_of_mem _ hn))
+    cases i with
+    | lit c => simp only [NoJoinP] at hnj; simp only [Sep]; exact ih' hnj
+    | txt s => simp only [NoJoinP] at hnj; simp only [Sep]; exact ih' hnj
+    | stray =>
+      simp only [NoJoinP] at hnj
+      simp only [Sep]
+      refine ⟨?_, ih' hnj.2⟩
+      intro hp
+      exact hnj.1 m hmem (prefix_map_of_noAt esc _ (fill_fixes _) is m hm hp)
+    | ref n =>
+      simp only [NoJoinP] at hnj
+      simp only [Sep]
+      refine ⟨?_, ih' hnj.2⟩
+      intro hne hp
+      rcases List.prefix_or_prefix_of_prefix hp (List.prefix_append n (render esc is)) with h1 | h1
+      · -- `m` a proper prefix of `n`: excluded by the sort (longer names first)
+        have := blen_lt_of_prefix_ne h1 (Ne.symm hne)
+        have := hlen n (hrefs n (by simp))
+        omega
+      · -- `n` a proper prefix of `m`: excluded by the no-join condition
+        obtain ⟨s', rfl⟩ := h1
+        have hs' : '@' ∉ s' := fun e => hm (by simp [e])
+        have h2 : s' <+: render esc is := (List.prefix_append_right_inj n).mp hp
+        have h3 := prefix_map_of_noAt esc _ (fill_fixes ((n ++ s', w) :: rest)) is s' hs' h2
+        exact hnj.1 (n ++ s') hmem (List.prefix_append _ _) hne
+          ((List.prefix_append_right_inj n).mpr h3)
+
+theorem noJoin_step (esc : Char → Str) (m w : Str) (rest : List (Str × Str)) (is : List Item)
+    (hnj : NoJoinP esc ((m, w) :: rest) is) : NoJoinP esc rest (is.map (fill1 m w)) := by
+  have hsub : ∀ x ∈ names rest, x ∈ names ((m, w) :: rest) := by
+    intro x hx; simp only [names, List.map_cons, List.mem_cons]; right; exact hx
+  induction is with
+  | nil => simp [NoJoinP]
+  | cons i is ih =>
+    cases i with
+    | lit c => simp only [NoJoinP, List.map_cons, fill1] at hnj ⊢; exact ih hnj
+    | txt s => simp only [NoJoinP, List.map_cons, fill1] at hnj ⊢; exact ih hnj
+    | stray =>
+      simp only [NoJoinP, List.map_cons, fill1] at hnj ⊢
+      refine ⟨?_, ih hnj.2⟩
+      intro x hx
+      rw [← map_fill_cons]
+      exact hnj.1 x (hsub x hx)
+    | ref n =>
+      simp only [NoJoinP, List.map_cons, fill1] at hnj ⊢
+      by_cases h : n = m
+      · simp only [if_pos h, NoJoinP]; exact ih hnj.2
+      · simp only [if_neg h, NoJoinP]
+        refine ⟨?_, ih hnj.2⟩
+        intro x hx
+        rw [← map_fill_cons]
+        exact hnj.1 x (hsub x hx)
+
+theorem replaceVars_cons (t m w : Str) (rest : List (Str × Str)) :
+    replaceVars t ((m, w) :: rest) = replaceVars (replaceAll1 '@' m w t) rest := rfl
+
+theorem replaceVars_nil (t : Str) : replaceVars t [] = t := rfl
+
+/-- **Sequential = simultaneous in the item view.**  Replacing `@name` by its value, name after name in a
+list sorted by descending byte length, turns the rendering of an item list into the rendering of the list with
+every reference filled — provided no name and no value contains `@` and the no-join condition holds. -/
+theorem foldl_replace_render (esc : Char → Str) (vs : List (Str × Str)) (is : List Item)
+    (hsorted : Sorted vs) (hnames : ∀ p ∈ vs, '@' ∉ p.1) (hvals : ∀ p ∈ vs, '@' ∉ p.2)
+    (hclean : Clean esc is) (hrefs : ∀ n, Item.ref n ∈ is → n ∈ names vs)
+    (hnj : NoJoinP esc vs is) :
+    replaceVars (render esc is) vs = render esc (is.map (fill vs)) := by
+  induction vs generalizing is with
+  | nil =>
+    rw [replaceVars_nil, show (fill []) = id from funext fill_nil]; simp
+  | cons p rest ih =>
+    obtain ⟨m, w⟩ := p
+    have hm : '@' ∉ m := hnames (m, w) (by simp)
+    have hw : '@' ∉ w := hvals (m, w) (by simp)
+    have hsep := sep_of_noJoin esc m w rest is hsorted hm hrefs hnj
+    rw [replaceVars_cons, replace_render esc m w is hclean hsep]
+    have hclean' : Clean esc (is.map (fill1 m w)) := by
+      refine ⟨?_, ?_, ?_⟩
+      · intro c hc
+        obtain ⟨i, hi, he⟩ := List.mem_map.mp hc
+        cases i with
+        | lit c' => simp [fill1] at he; subst he; exact hclean.lit _ hi
+        | txt s => simp [fill1] at he
+        | stray => simp [fill1] at he
+        | ref n => simp only [fill1] at he; split at he <;> simp at he
+      · intro s hs
+        obtain ⟨i, hi, he⟩ := List.mem_map.mp hs
+        cases i with
+        | lit c' => simp [fill1] at he
+        | txt s' => simp [fill1] at he; subst he; exact hclean.txt _ hi
+        | stray => simp [fill1] at he
+        | ref n =>
+          simp only [fill1] at he
+          split at he
+          · simp at he; subst he; exact hw
+          · simp at he
+      · intro n hn
+        obtain ⟨i, hi, he⟩ := List.mem_map.mp hn
+        cases i with
+        | lit c' => simp [fill1] at he
+        | txt s' => simp [fill1] at he
+        | stray => simp [fill1] at he
+        | ref n' =>
+          simp only [fill1] at he
+          split at he
+          · simp at he
+          · simp at he; subst he; exact hclean.ref _ hi
+    have hrefs' : ∀ n, Item.ref n ∈ is.map (fill1 m w) → n ∈ names rest := by
+      intro n hn
+      obtain ⟨i, hi, he⟩ := List.mem_map.mp hn
+      cases i with
+      | lit c' => simp [fill1] at he
+      | txt s' => simp [fill1] at he
+      | stray => simp [fill1] at he
+      | ref n' =>
+        simp only [fill1] at he
+        split at he
+        · simp at he
+        · rename_i hne
+          simp at he; subst he
+          have := hrefs _ hi
+          simp only [names, List.map_cons, List.mem_cons] at this
+          rcases this with h | h
+          · exact absurd h hne
+          · exact h
+    have := ih (is.map (fill1 m w)) (List.pairwise_cons.mp hsorted).2
+      (fun p hp => hnames p (List.mem_cons_of_mem _ hp)) (fun p hp => hvals p (List.mem_cons_of_mem _ hp))
+      hclean' hrefs' (noJoin_step esc m w rest is hnj)
+    rw [this, map_fill_cons]
+
+/-! ### The sort -/
+
+theorem mem_insertByLen {β : Type} (x y : Str × β) (l : List (Str × β)) :
+    y ∈ insertByLen x l ↔ y = x ∨ y ∈ l := by
+  induction l with
+  | nil => simp [insertByLen]
+  | cons z zs ih =>
+    simp only [insertByLen]
+    split
+    · simp
+    · simp only [List.mem_cons, ih]
+      constructor
+      · rintro (h | h | h)
+        · right; left; exact h
+        · left; exact h
+        · right; right; exact h
+      · rintro (h | h | h)
+        · right; left; exact h
+        · left; exact h
+        · right; right; exact h
+
+theorem mem_sortByLen {β : Type} (y : Str × β) (l : List (Str × β)) : y ∈ sortByLen l ↔ y ∈ l := by
+  induction l with
+  | nil => simp [sortByLen]
+  | cons x xs ih => simp [sortByLen, mem_insertByLen, ih]
+
+theorem sorted_insertByLen {β : Type} (x : Str × β) (l : List (Str × β)) (h : Sorted l) :
+    Sorted (insertByLen x l) := by
+  induction l with
+  | nil => simp [insertByLen, Sorted]
+  | cons z zs ih =>
+    simp only [insertByLen]
+    have hz := List.pairwise_cons.mp h
+    split
+    · rename_i hle
+      refine List.pairwise_cons.mpr ⟨?_, h⟩
+      intro y hy
+      rcases List.mem_cons.mp hy with rfl | hy'
+      · exact hle
+      · exact Nat.le_trans (hz.1 y hy') hle
+    · rename_i hnle
+      refine List.pairwise_cons.mpr ⟨?_, ih hz.2⟩
+      intro y hy
+      rcases (mem_insertByLen x y zs).mp hy with rfl | hy'
+      · omega
+      · exact hz.1 y hy'
+
+theorem sorted_sortByLen {β : Type} (l : List (Str × β)) : Sorted (sortByLen l) := by
+  induction l with
+  | nil => simp [sortByLen, Sorted]
+  | cons x xs ih => exact sorted_insertByLen x _ ih
+
+/-- Stability: the element that is moved only passes strictly longer names, so the first entry of every
+name stays the first. -/
+theorem lookup_insertByLen {β : Type} (x : Str × β) (l : List (Str × β)) (n : Str) :
+    (insertByLen x l).lookup n = (x :: l).lookup n := by
+  induction l with
+  | nil => simp [insertByLen]
+  | cons z zs ih =>
+    simp only [insertByLen]
+    split
+    · rfl
+    · rename_i hnle
+      have hne : z.1 ≠ x.1 := by intro e; rw [e] at hnle; omega
+      obtain ⟨zk, zv⟩ := z
+      obtain ⟨xk, xv⟩ := x
+      simp only [List.lookup_cons] at ih ⊢
+      rw [ih]
+      by_cases h1 : n = zk
+      · subst h1
+        have : (n == xk) = false := by simpa using hne
+        simp [this]
+      · have : (n == zk) = false := by simpa using h1
+        simp [this]
+
+theorem lookup_sortByLen {β : Type} (l : List (Str × β)) (n : Str) : (sortByLen l).lookup n = l.lookup n := by
+  induction l with
+  | nil => simp [sortByLen]
+  | cons x xs ih =>
+    obtain ⟨xk, xv⟩ := x
+    simp only [sortByLen]
+    rw [lookup_insertByLen]
+    simp only [List.lookup_cons, ih]
+
+theorem mem_names_sortByLen {β : Type} (l : List (Str × β)) (n : Str) : n ∈ names (sortByLen l) ↔ n ∈ names l := by
+  simp only [names, List.mem_map]
+  constructor
+  · rintro ⟨p, hp, rfl⟩; exact ⟨p, (mem_sortByLen p l).mp hp, rfl⟩
+  · rintro ⟨p, hp, rfl⟩; exact ⟨p, (mem_sortByLen p l).mpr hp, rfl⟩
+
+theorem fill_sortByLen (vs : List (Str × Str)) : fill (sortByLen vs) = fill vs := by
+  funext i
+  cases i with
+  | ref n => simp [fill, lookup_sortByLen]
+  | _ => simp [fill]
+
+theorem noJoinP_sortByLen (esc : Char → Str) (vs : List (Str × Str)) (is : List Item)
+    (h : NoJoinP esc vs is) : NoJoinP esc (sortByLen vs) is := by
+  induction is with
+  | nil => simp [NoJoinP]
+  | cons i is ih =>
+    cases i with
+    | lit c => simp only [NoJoinP] at h ⊢; exact ih h
+    | txt s => simp only [NoJoinP] at h ⊢; exact ih h
+    | stray =>
+      simp only [NoJoinP] at h ⊢
+      refine ⟨?_, ih h.2⟩
+      intro m hm
+      rw [fill_sortByLen]
+      exact h.1 m ((mem_names_sortByLen vs m).mp hm)
+    | ref n =>
+      simp only [NoJoinP] at h ⊢
+      refine ⟨?_, ih h.2⟩
+      intro m hm
+      rw [fill_sortByLen]
+      exact h.1 m ((mem_names_sortByLen vs m).mp hm)
+
+/-! ### What the parser produces -/
+
+theorem parse_refs (ns : List Str) (t : Str) : ∀ n, Item.ref n ∈ parse ns t → n ∈ ns := by
+  induction t using parse_induction ns with
+  | hnil => simp [parse_nil]
+  | hlit c cs hc ih => rw [parse_lit _ _ _ hc]; simpa using ih
+  | href cs n hl ih =>
+    rw [parse_ref _ _ _ hl]
+    intro n' hn'
+    rcases List.mem_cons.mp hn' with h | h
+    · simp at h; subst h; exact (longest_some hl).1
+    · exact ih n' h
+  | hstray cs hl ih => rw [parse_stray _ _ hl]; simpa using ih
+
+theorem parse_no_txt (ns : List Str) (t : Str) : ∀ s, Item.txt s ∉ parse ns t := by
+  induction t using parse_induction ns with
+  | hnil => simp [parse_nil]
+  | hlit c cs hc ih => rw [parse_lit _ _ _ hc]; simpa using ih
+  | href cs n hl ih => rw [parse_ref _ _ _ hl]; simpa using ih
+  | hstray cs hl ih => rw [parse_stray _ _ hl]; simpa using ih
+
+theorem parse_lit_ne_at (ns : List Str) (t : Str) : ∀ c, Item.lit c ∈ parse ns t → c ≠ '@' := by
+  induction t using parse_induction ns with
+  | hnil => simp [parse_nil]
+  | hlit c cs hc ih =>
+    rw [parse_lit _ _ _ hc]
+    intro c' hc'
+    rcases List.mem_cons.mp hc' with h | h
+    · simp at h; subst h; exact hc
+    · exact ih c' h
+  | href cs n hl ih => rw [parse_ref _ _ _ hl]; simpa using ih
+  | hstray cs hl ih => rw [parse_stray _ _ hl]; simpa using ih
+
+theorem noAt_iff (s : Str) : noAt s = true ↔ '@' ∉ s := by
+  simp [noAt]
+
 end Rio.Marker
